@@ -1,11 +1,15 @@
 (* C06 - The WAL reader returns only intact entries in append order.
    Only property statements live here; proofs are in Proofs.v.
 
-   `crc` (hash/crc32.ChecksumIEEE) and `classify` (the msgpack decoding at the end of readEntry)
-   are arbitrary functions; what a theorem needs from CRC-32 is an explicit premise:
-     crc_range          crc p < 2^32
-     crc_detects_1byte  changing one byte of a byte string changes its checksum
-   Nothing is assumed about `classify`. *)
+   `crc` (hash/crc32.ChecksumIEEE), `classify` (the msgpack decoding at the end of readEntry)
+   and `maxp` (MaxWALPayloadSize) are arbitrary; what a theorem needs from them is an explicit
+   premise:
+     maxp < 2^32          the cap fits the 32-bit length field (re-checked for the value in the
+                          source by Obligations.C06_params_layout)
+     crc p < 2^32
+     crc_detects_1byte    changing one byte of a byte string changes its checksum
+   Nothing is assumed about `classify`.  The model is the code after commit 591fc4b (ReadAll
+   stops at an oversize length or a checksum mismatch; ParseEnvelope computes in int). *)
 From Coq Require Import List Arith NArith Bool Lia.
 From ArcGen Require Import Params_Wal.
 From Arc Require Import Wal.Model Wal.Proofs.
@@ -17,28 +21,38 @@ Open Scope N_scope.
 (* Reading a file the writer produced returns exactly the decodable appended entries, each
    with its timestamp, format, database and payload bytes, in append order; the others are
    counted as corrupted.  For ALL entry sequences. *)
-Theorem C06_intact : forall (crc : list N -> N) (classify : list N -> cls),
-  (forall p, crc p < 256 ^ N.of_nat 4) ->
-  forall es, Forall wf_entry es -> no_panic classify es ->
-  read_all crc classify (file crc es) = FOk (emitted classify es) (undecodable classify es).
+Theorem C06_intact : forall (crc : list N -> N) (classify : list N -> cls) (maxp : N),
+  maxp < 256 ^ N.of_nat 4 -> (forall p, crc p < 256 ^ N.of_nat 4) ->
+  forall es, Forall (wf_entry maxp) es ->
+  read_all crc classify maxp (file crc es) = FOk (emitted classify es) (undecodable classify es).
 Proof. exact intact. Qed.
 Print Assumptions C06_intact.
 
-(* The same at the level of the three append calls: AppendRaw(p) / Append(records) come back as
-   p in the default database, AppendRawWithMeta(db, p) comes back as p in database db. *)
-Theorem C06_intact_ops : forall (crc : list N -> N) (classify : list N -> cls),
-  (forall p, crc p < 256 ^ N.of_nat 4) ->
-  forall ops, Forall wf_op ops ->
-  exists c, read_all crc classify (file crc (map op_entry ops)) = FOk (flat_map (op_spec classify) ops) c.
-Proof. exact intact_ops. Qed.
-Print Assumptions C06_intact_ops.
+(* From the append CALLS to what is read back, for every sequence of AppendRaw / Append /
+   AppendRawWithMeta calls of ANY size: exactly the calls the writer accepts come back -
+   AppendRaw(p) as p in the default database, AppendRawWithMeta(db, p) as p in database db -
+   because what the writer accepts fits the cap ON DISK, envelope included (a call it rejects
+   writes nothing). *)
+Theorem C06_intact_appends : forall (crc : list N -> N) (classify : list N -> cls) (maxp : N),
+  maxp < 256 ^ N.of_nat 4 -> (forall p, crc p < 256 ^ N.of_nat 4) ->
+  forall ops, Forall wf_call ops ->
+  exists c, read_all crc classify maxp (file crc (map op_entry (accepted maxp ops))) =
+            FOk (flat_map (op_spec classify) (accepted maxp ops)) c.
+Proof. exact intact_appends. Qed.
+Print Assumptions C06_intact_appends.
+
+(* the writer's size test: an accepted call fits the cap with its envelope *)
+Theorem C06_accepted_fits_cap : forall (maxp : N) o, append_outcome maxp o = AOk ->
+  len_N (e_payload (op_entry o)) <= maxp /\ match o with OpMeta _ db _ => len_N db <= 255 | _ => True end.
+Proof. exact outcome_ok_fits. Qed.
+Print Assumptions C06_accepted_fits_cap.
 
 (* Rotation: whatever MaxSizeBytes is, replaying all files in rotation order yields every
    decodable appended entry once, in append order. *)
-Theorem C06_rotation_recover : forall (crc : list N -> N) (classify : list N -> cls),
-  (forall p, crc p < 256 ^ N.of_nat 4) ->
-  forall maxsize es, Forall wf_entry es -> no_panic classify es ->
-  recover crc classify (writer_files crc maxsize es) = Some (filter delivered (emitted classify es)).
+Theorem C06_rotation_recover : forall (crc : list N -> N) (classify : list N -> cls) (maxp : N),
+  maxp < 256 ^ N.of_nat 4 -> (forall p, crc p < 256 ^ N.of_nat 4) ->
+  forall maxsize es, Forall (wf_entry maxp) es ->
+  recover crc classify maxp (writer_files crc maxsize es) = filter delivered (emitted classify es).
 Proof. exact rotation_recover. Qed.
 Print Assumptions C06_rotation_recover.
 
@@ -46,10 +60,10 @@ Print Assumptions C06_rotation_recover.
 
 (* For every k, the first k bytes of the file read back as exactly the entries whose frames lie
    completely within those k bytes: nothing torn is returned, nothing complete is hidden. *)
-Theorem C06_truncation : forall (crc : list N -> N) (classify : list N -> cls),
-  (forall p, crc p < 256 ^ N.of_nat 4) ->
-  forall es k, Forall wf_entry es -> no_panic classify es ->
-  exists c, read_all crc classify (truncate k (file crc es)) =
+Theorem C06_truncation : forall (crc : list N -> N) (classify : list N -> cls) (maxp : N),
+  maxp < 256 ^ N.of_nat 4 -> (forall p, crc p < 256 ^ N.of_nat 4) ->
+  forall es k, Forall (wf_entry maxp) es ->
+  exists c, read_all crc classify maxp (truncate k (file crc es)) =
             FOk (emitted classify (prefix_within crc (k - 7) es)) c.
 Proof. exact truncation. Qed.
 Print Assumptions C06_truncation.
@@ -62,111 +76,134 @@ Theorem C06_truncation_prefix_maximal : forall (crc : list N -> N) es k, exists 
   | [] => True
   | e :: _ => (k < length (frames crc (prefix_within crc k es)) + length (frame crc e))%nat
   end.
-Proof. exact prefix_within_spec. Qed.
+Proof. intros crc es k. exact (prefix_within_spec crc 0 eq_refl es k). Qed.
 Print Assumptions C06_truncation_prefix_maximal.
 
 (* the fuel given to the model of the `for` loop of ReadAll always suffices *)
-Theorem C06_reader_terminates : forall (crc : list N -> N) (classify : list N -> cls),
-  (forall p, crc p < 256 ^ N.of_nat 4) ->
-  forall f, read_all crc classify f <> FOutOfFuel.
+Theorem C06_reader_terminates : forall (crc : list N -> N) (classify : list N -> cls) (maxp : N),
+  maxp < 256 ^ N.of_nat 4 -> (forall p, crc p < 256 ^ N.of_nat 4) ->
+  forall f, read_all crc classify maxp f <> FOutOfFuel.
 Proof. exact read_all_never_out_of_fuel. Qed.
 Print Assumptions C06_reader_terminates.
 
 (* ---- one substituted byte ------------------------------------------------------------------ *)
 
-(* REFUTED as stated in the property: with the real CRC-32, there is a log (a columnar write
-   into "mydb" whose string value ends with a well-formed frame, between two ordinary entries)
-   and ONE changed byte (a length byte) such that the reader returns an entry nobody appended:
-   a row-format record for database "other". *)
-Theorem C06_corruption_refuted :
-  exists es i b res c,
-    Forall wf_entry es /\ no_panic classify_shape es /\ b < 256 /\ (i < length (file crc32 es))%nat /\
-    read_all crc32 classify_shape (set_byte i b (file crc32 es)) = FOk res c /\
-    ~ sublist (map strip res) (map strip (emitted classify_shape es)).
-Proof. exact corruption_refuted. Qed.
-Print Assumptions C06_corruption_refuted.
-
-(* Guarded: for ALL entry sequences, EVERY position i of the file and EVERY byte value b, the
-   reader does not panic and returns a subsequence of the appended (format, database, payload)
-   triples - or rejects the file (damaged magic) - provided that, WHEN i is one of the four
-   length bytes of a frame, the frame area contains no ghost frame (a byte range, at any offset
-   and of any length, that passes the CRC test against the four bytes before it and decodes).
-   Damage to the file header, timestamps, checksums and payloads needs no such proviso. *)
-Theorem C06_corruption_guarded : forall (crc : list N -> N) (classify : list N -> cls),
-  (forall p, crc p < 256 ^ N.of_nat 4) ->
+(* For ALL entry sequences, EVERY position i of the file and EVERY byte value b: the reader
+   returns a subsequence of the appended (format, database, payload bytes) triples, in order -
+   or rejects the file (damaged magic).  There is no panic outcome in the model any more.
+   Damage to the file header, a timestamp, a checksum or a payload needs no proviso at all.
+   When i is one of the four LENGTH bytes of a frame - the one field no checksum covers - the
+   reader tests a byte range of another length against the stored CRC, and the statement needs
+   that this test fails (length_alias_free: no range of another length starting where an
+   appended payload starts has that payload's checksum).  This is a fact about the CRC of the
+   data, 2^-32 for unrelated bytes, not about the reader: C06_length_alias_needed shows that the
+   byte-level statement is false without it.  The ghost-frame proviso of the previous version
+   (a well-formed frame anywhere inside a payload) is gone: the reader no longer walks through
+   payload bytes. *)
+Theorem C06_corruption : forall (crc : list N -> N) (classify : list N -> cls) (maxp : N),
+  maxp < 256 ^ N.of_nat 4 -> (forall p, crc p < 256 ^ N.of_nat 4) ->
   (forall p i b, bytes p -> b < 256 -> (i < length p)%nat -> nth i p 0 <> b -> crc (set_byte i b p) <> crc p) ->
   forall es i b,
-  Forall wf_entry es -> no_panic classify es -> b < 256 -> (i < length (file crc es))%nat ->
-  (in_len_field crc i es = true -> ghost_free crc classify es) ->
-  match read_all crc classify (set_byte i b (file crc es)) with
+  Forall (wf_entry maxp) es -> b < 256 -> (i < length (file crc es))%nat ->
+  (in_len_field crc i es = true -> length_alias_free crc maxp es) ->
+  match read_all crc classify maxp (set_byte i b (file crc es)) with
   | FOk res _ => sublist (map strip res) (map strip (emitted classify es))
   | FErr => True
-  | FPanic | FOutOfFuel => False
+  | FOutOfFuel => False
   end.
-Proof. exact corruption_guarded. Qed.
-Print Assumptions C06_corruption_guarded.
+Proof. exact corruption. Qed.
+Print Assumptions C06_corruption.
 
-(* the executable certificate the check uses to recognise the excluded class is sound *)
-Theorem C06_ghost_cert_sound : forall (crc : list N -> N) (classify : list N -> cls) es p len,
-  ghost_cert crc classify es p len = true -> ~ ghost_free crc classify es.
-Proof. exact ghost_cert_sound. Qed.
-Print Assumptions C06_ghost_cert_sound.
+(* the proviso is needed for the byte-level statement (real CRC-32, crafted payload whose
+   14-byte prefix has the checksum of all 18 bytes, one changed length byte): the reader
+   returns the prefix.  The prefix decodes to the same msgpack document, so no decoded content
+   differs. *)
+Theorem C06_length_alias_needed :
+  Forall (wf_entry max_payload) alias_es /\ in_len_field crc32 10 alias_es = true /\
+  ~ length_alias_free crc32 max_payload alias_es /\
+  read_all crc32 classify_shape max_payload (set_byte 10 14 (file crc32 alias_es)) =
+    FOk [mkR 9 KCol [] (unhex "82a16da163a7636f6c756d6e7380"%bs)] 0 /\
+  emitted classify_shape alias_es = [mkR 9 KCol [] (unhex "82a16da163a7636f6c756d6e73805e89b259"%bs)].
+Proof.
+  split; [apply wf_entryb_sound; vm_compute; reflexivity|].
+  split; [vm_compute; reflexivity|]. split; [exact alias_not_free|].
+  split; [exact alias_read|]. vm_compute. reflexivity.
+Qed.
+Print Assumptions C06_length_alias_needed.
+
+(* necessity of the fix, as a statement about the model variant read_all_old (the loop
+   `continue`s after an oversize length / checksum mismatch, as before 591fc4b): with the real
+   CRC-32, one changed length byte makes it return a row-format record for database "other"
+   that nobody appended *)
+Theorem C06_old_continue_fabricates :
+  exists es i b res c,
+    Forall (wf_entry max_payload) es /\ b < 256 /\ (i < length (file crc32 es))%nat /\
+    read_all_old crc32 classify_shape max_payload (set_byte i b (file crc32 es)) = FOk res c /\
+    ~ sublist (map strip res) (map strip (emitted classify_shape es)).
+Proof. exact old_continue_fabricates. Qed.
+Print Assumptions C06_old_continue_fabricates.
 
 (* ---- non-vacuity ------------------------------------------------------------------------------ *)
 
-(* every premise of C06_corruption_guarded holds simultaneously for a concrete checksum, log
-   and length-byte position (so the theorem is not vacuous, in particular not in its guarded
-   branch) *)
-Example C06_guarded_hypotheses_satisfiable :
+(* every premise of C06_corruption holds simultaneously for a concrete checksum, log and
+   length-byte position (so the theorem is not vacuous, in particular not in its guarded branch) *)
+Example C06_corruption_hypotheses_satisfiable :
+  max_payload < 256 ^ N.of_nat 4 /\
   (forall p, crc_sum p < 256 ^ N.of_nat 4) /\
   (forall p i b, bytes p -> b < 256 -> (i < length p)%nat -> nth i p 0 <> b -> crc_sum (set_byte i b p) <> crc_sum p) /\
-  Forall wf_entry tiny_es /\ no_panic classify_shape tiny_es /\
+  Forall (wf_entry max_payload) tiny_es /\
   (10 < length (file crc_sum tiny_es))%nat /\ in_len_field crc_sum 10 tiny_es = true /\
-  ghost_free crc_sum classify_shape tiny_es /\
-  read_all crc_sum classify_shape (file crc_sum tiny_es) = FOk [mkR 5 KRow [] [144]] 0.
+  length_alias_free crc_sum max_payload tiny_es /\
+  read_all crc_sum classify_shape max_payload (file crc_sum tiny_es) = FOk [mkR 5 KRow [] [144]] 0.
 Proof.
-  split; [exact crc_sum_range|]. split; [exact crc_sum_detects|].
-  split; [apply wf_entryb_sound; reflexivity|]. split; [apply no_panicb_sound; reflexivity|].
-  split; [vm_compute; lia|]. split; [reflexivity|]. split; [exact tiny_ghost_free|]. reflexivity.
+  split; [reflexivity|]. split; [exact crc_sum_range|]. split; [exact crc_sum_detects|].
+  split; [apply wf_entryb_sound; reflexivity|].
+  split; [vm_compute; lia|]. split; [reflexivity|]. split; [exact tiny_alias_free|]. reflexivity.
 Qed.
-
-(* the excluded class is not empty: the refutation witness has a ghost (Coq-checked
-   certificate) and its damaged byte is a length byte *)
-Example C06_excluded_class_nonempty :
-  in_len_field crc32 wit_pos wit_es = true /\ ~ ghost_free crc32 classify_shape wit_es.
-Proof.
-  split; [exact wit_in_len_field|]. eapply ghost_cert_sound. exact wit_has_ghost.
-Qed.
-
-(* the no_panic premise is needed: an appended payload 01 FF FD .. (CRC-valid) makes
-   ParseEnvelope's uint16 arithmetic wrap and the reader panic on the INTACT file *)
-Example C06_no_panic_needed :
-  Forall wf_entry [mkEntry 7 [1; 255; 253; 0]] /\
-  read_all crc32 classify_shape (file crc32 [mkEntry 7 [1; 255; 253; 0]]) = FPanic.
-Proof. split; [apply wf_entryb_sound; reflexivity|exact envelope_wrap_panics]. Qed.
-
-(* the "raw payload does not start with the marker byte" premise of wf_op is needed: such a raw
-   payload is read back as an envelope (other database, shorter payload) *)
-Example C06_raw_marker_counterexample :
-  parse_envelope [1; 0; 1; 100; 144] = EnvOk [100] [144].
-Proof. reflexivity. Qed.
 
 (* a three-entry log (raw columnar, enveloped columnar, row format) meets the premises of
    C06_intact / C06_truncation / C06_rotation_recover with the toy checksum; intact it reads back
-   as its three entries, cut at byte 100 (inside the second frame) as the first one only, and
-   with MaxSizeBytes = 60 the writer model spreads it over two files plus the (header-only) open one *)
+   as its three entries, cut at byte 100 (inside the second frame) as the first one only, with
+   MaxSizeBytes = 60 the writer model spreads it over two files plus the (header-only) open one,
+   and with the real CRC-32 the damaged length byte of the old witness now stops the reader
+   after the first entry *)
 Example C06_intact_truncation_nonvacuous :
-  Forall wf_entry wit_es /\ no_panic classify_shape wit_es /\
-  map r_ts (match read_all crc_sum classify_shape (file crc_sum wit_es) with FOk es _ => es | _ => [] end)
+  Forall (wf_entry max_payload) wit_es /\
+  map r_ts (match read_all crc_sum classify_shape max_payload (file crc_sum wit_es) with FOk es _ => es | _ => [] end)
     = [1700000000000000; 1700000000000002; 1700000000000003] /\
-  map r_db (match read_all crc_sum classify_shape (file crc_sum wit_es) with FOk es _ => es | _ => [] end)
+  map r_db (match read_all crc_sum classify_shape max_payload (file crc_sum wit_es) with FOk es _ => es | _ => [] end)
     = [[]; [109; 121; 100; 98]; []] /\
-  map r_ts (match read_all crc_sum classify_shape (truncate 100 (file crc_sum wit_es)) with FOk es _ => es | _ => [] end)
+  map r_ts (match read_all crc_sum classify_shape max_payload (truncate 100 (file crc_sum wit_es)) with FOk es _ => es | _ => [] end)
     = [1700000000000000] /\
   length (writer_files crc_sum 60 wit_es) = 3%nat /\
-  recover crc_sum classify_shape (writer_files crc_sum 60 wit_es) = Some (emitted classify_shape wit_es).
+  recover crc_sum classify_shape max_payload (writer_files crc_sum 60 wit_es) = emitted classify_shape wit_es /\
+  map r_ts (match read_all crc32 classify_shape max_payload (set_byte wit_pos wit_byte (file crc32 wit_es)) with FOk es _ => es | _ => [] end)
+    = [1700000000000000].
 Proof.
   split; [apply wf_entryb_sound; vm_compute; reflexivity|].
-  split; [apply no_panicb_sound; vm_compute; reflexivity|].
   vm_compute. repeat split; reflexivity.
 Qed.
+
+(* the writer's size test counts the envelope: with a cap of 40 bytes a 36-byte payload is
+   accepted by AppendRaw and by AppendRawWithMeta("d", .) (36+4 = 40), a 37-byte one only by
+   AppendRaw; a 256-byte database name panics *)
+Example C06_append_outcomes :
+  let p36 := repeat 144 36 in let p37 := repeat 144 37 in
+  map (append_outcome 40) [OpRaw 1 p36; OpMeta 1 [100] p36; OpRaw 1 p37; OpMeta 1 [100] p37; OpRaw 1 (repeat 144 41);
+                           OpMeta 1 (repeat 100 256) []]
+  = [AOk; AOk; AOk; AErr; AErr; AErr] /\
+  append_outcome max_payload (OpMeta 1 (repeat 100 256) []) = APanic.
+Proof. split; vm_compute; reflexivity. Qed.
+
+(* a CRC-valid payload 01 FF FD .. is no longer taken for an envelope with a wrapped length *)
+Example C06_envelope_length_no_wrap :
+  parse_envelope [1; 255; 253; 0] = EnvOk [] [1; 255; 253; 0] /\
+  read_all crc32 classify_shape max_payload (file crc32 [mkEntry 7 [1; 255; 253; 0]]) = FOk [] 1.
+Proof. exact envelope_length_no_wrap. Qed.
+
+(* the "raw payload does not start with the marker byte" premise of wf_call is needed: such a raw
+   payload is read back as an envelope (other database, shorter payload) - which is what the
+   replication receiver relies on when it appends an already enveloped payload *)
+Example C06_raw_marker_counterexample :
+  parse_envelope [1; 0; 1; 100; 144] = EnvOk [100] [144].
+Proof. reflexivity. Qed.
